@@ -180,6 +180,55 @@ Theorem C02_sweep_counts_down : forall (A : Type) (g : Z) (st : state A) (c : cl
 Proof. exact thm_sweep_counts_down. Qed.
 Print Assumptions C02_sweep_counts_down.
 
+(* ---- the client's listen loop: failed passes are not misses -------------------------------------------
+   listen_sim is the loop's error counter and sweep gate (`if s.errors == 0 { markSweepFrags() }`, the
+   counter as the previous pass left it; Switch => errors--; refused connect / failed exchange => errors++;
+   completed exchange => 0; the loop ends above maxErrors); listen_evs is the receiver-side history it
+   produces from a list of passes (refused | lost | packet).  `check` runs the REAL listen loop through
+   scripted passes and compares reactions, the counter after every pass, the end of the loop and the table. *)
+
+(* without switches, two sweeps never happen without an arrival in between, however many passes fail *)
+Theorem C02_listen_sweeps_sparse : forall (A : Type) (self : Z) (ws : list (lwake A)) (errs : Z) (st : state A),
+  no_switch ws = true -> 0 <= errs <= 6 -> sparse false (listen_evs self errs st ws) = true.
+Proof. exact thm_listen_sweeps_sparse. Qed.
+Print Assumptions C02_listen_sweeps_sparse.
+
+(* such a history is paced for every group that sees fewer than 4 foreign arrivals between two of its own *)
+Theorem C02_sparse_paced : forall (A : Type) (g : Z) (evs : list (ev A)),
+  sparse false evs = true -> fgap g evs = true -> paced g evs = true.
+Proof. exact thm_sparse_paced. Qed.
+Print Assumptions C02_sparse_paced.
+
+(* reassemble_any_order through the loop: ANY passes (any number of refused connects and lost exchanges
+   anywhere, as long as the loop itself goes on so that the fragments do arrive), arrivals of g = the
+   fragments in some order with position 0 first, fewer than 4 foreign exchanges between two of them *)
+Theorem C02_listen_failed_wakeups_free : forall (A : Type) (F g self : Z) (n : packet A) (ws : list (lwake A)) (errs : Z) (st0 : state A),
+  HeaderSize <= F -> 0 <= p_tags n -> F < size n -> nfrag F n <= 65535 -> addressed self n ->
+  NoDup (map fst st0) -> lookup g st0 = None ->
+  no_switch ws = true -> 0 <= errs <= 6 ->
+  Permutation (own_pkts g (listen_evs self errs st0 ws)) (split F g n) ->
+  hd_error (own_pkts g (listen_evs self errs st0 ws)) = hd_error (split F g n) ->
+  fgap g (listen_evs self errs st0 ws) = true ->
+  own_outs g (listen_evs self errs st0 ws) (snd (run self st0 (listen_evs self errs st0 ws))) =
+    repeat ONone (Z.to_nat (nfrag F n - 1)) ++ [ODeliver (reassembled n)] /\
+  lookup g (fst (run self st0 (listen_evs self errs st0 ws))) = None.
+Proof. exact thm_listen_failed_wakeups_free. Qed.
+Print Assumptions C02_listen_failed_wakeups_free.
+
+(* non-vacuity: fragment 0, six refused connects, fragment 2, five lost exchanges, fragment 1: three sweeps in
+   all, the counter runs 0 1..6 0 1..5 0, the packet is delivered; one more failure of either kind ends the loop *)
+Theorem C02_listen_nonvacuous :
+  (no_switch ExL.ws_ok = true /\
+   listen_sim 1 0 [] ExL.ws_ok =
+     ([EvSweep; Ex.a 0; EvSweep; Ex.a 2; EvSweep; Ex.a 1], [0; 1; 2; 3; 4; 5; 6; 0; 1; 2; 3; 4; 5; 0], false) /\
+   fgap Ex.gA (listen_evs 1 0 [] ExL.ws_ok) = true /\
+   run 1 [] (listen_evs 1 0 [] ExL.ws_ok) = ([], [ONone; ONone; ONone; ONone; ONone; ODeliver (reassembled Ex.nA)])) /\
+  (snd (listen_sim 1 0 [] [ExL.pk 0; ExL.rf; ExL.rf; ExL.rf; ExL.rf; ExL.rf; ExL.rf; ExL.rf; ExL.pk 1]) = true /\
+   snd (listen_sim 1 0 [] [ExL.pk 0; ExL.ls; ExL.ls; ExL.ls; ExL.ls; ExL.ls; ExL.ls; ExL.pk 1]) = true /\
+   listen_sim 1 0 [] [ExL.pk 0; LRefused true; ExL.pk 1] = ([EvSweep; Ex.a 0; EvSweep], [0; 255], true)).
+Proof. exact (conj ExL.listen_ok ExL.listen_ends). Qed.
+Print Assumptions C02_listen_nonvacuous.
+
 (* ---- two facts that justify the shape of the model ----------------------------------------------------- *)
 (* the fuel of recv is never exhausted *)
 Theorem C02_recv_fuel_enough : forall (A : Type) (self : Z) (st : state A) (p : packet A),
